@@ -4,8 +4,10 @@ import (
 	"fmt"
 	"os"
 	"reflect"
+	"runtime"
 	"sort"
 	"sync"
+	"sync/atomic"
 	"time"
 
 	"github.com/smart-core-os/sc-golang/pkg/router"
@@ -541,12 +543,19 @@ func cmdRmStress() {
 		log = nil
 		got := make([]int, n)
 		var wg sync.WaitGroup
-		startGun := make(chan struct{})
+		// the removers leave together from a spinning barrier (a closed channel wakes them one after another,
+		// which on a busy machine spreads them too far apart to overlap inside Remove)
+		var ready, gun atomic.Int32
 		for g := 0; g < n; g++ {
 			wg.Add(1)
 			go func(g int) {
 				defer wg.Done()
-				<-startGun
+				ready.Add(1)
+				for spins := 0; gun.Load() == 0; spins++ {
+					if spins%1024 == 1023 {
+						runtime.Gosched()
+					}
+				}
 				if c := r.Remove("dev/x"); c != nil {
 					if co, ok := c.(*clientObj); ok {
 						got[g] = co.id
@@ -556,7 +565,10 @@ func cmdRmStress() {
 				}
 			}(g)
 		}
-		close(startGun)
+		for ready.Load() < int32(n) {
+			runtime.Gosched()
+		}
+		gun.Store(1)
 		wg.Wait()
 		sort.Ints(got)
 		o := &rmStressObs{Kind: "rmstress", N: n, C: 11, Got: got, Has: r.Has("dev/x"), Chg: []chg{}, Count: 1}
